@@ -17,7 +17,7 @@ ID = "C03"
 LEVEL = "exploration"
 NEEDS_DEPS = ["numpy"]
 RULE = ("a case is one generated object (recursive universe of builtin scalars/containers/user classes, shared and "
-        "cyclic references, payloads sized around 8 KiB / 64 KiB / 1 MiB, optionally holding numpy arrays) x several "
+        "cyclic references, payloads sized around 8 KiB / 64 KiB / 1 MiB, 8-24 MiB constant or short-period runs at levels 4-9, optionally holding numpy arrays) x several "
         "(compress argument, protocol 0..5, target kind path|Path|open file|BytesIO, load-from kind) combinations, "
         "then - for path targets - the file renamed to every other compression extension and to none and loaded again; "
         "distinct_nontrivial counts distinct (object canonical form, compress, protocol, target, load kind) round "
